@@ -10,7 +10,7 @@ C19 — model of the recovery scan of `oxidize-pdf-core/src/parser/xref.rs`:
         de-duplication by line-start offset through `seen` = the offsets already pushed)
   * `scan_object_headers_chunked`   ↦ `scanChunked` (window = carry ++ chunk, carry from the last
         line boundary capped at `CARRY_CAP`, final sort by offset)
-  * `read_object_content`, `find_catalog_by_content`, steps 4b–4d, 4f of
+  * `read_object_content`, `find_catalog_by_content`, steps 4b–4f of
     `parse_with_recovery_options`   ↦ `readObjectContent`, `findRoot`
   * `add_headers_latest_wins`       ↦ `recoveredEntries` (`upsert` in scan order)
 Import-free.
@@ -211,6 +211,46 @@ def readObjectContent (f : Bytes) (num off : Nat) : Option Bytes :=
 
 def isSig (c : Bytes) : Bool := containsSub c (ascii "/Type/Sig") || containsSub c (ascii "/Type /Sig")
 
+/-- last occurrence -/
+def rfindSub (p : Bytes) : Bytes → Nat → Option Nat → Option Nat
+  | [], _, best => best
+  | b@(_ :: r), i, best => rfindSub p r (i + 1) (if startsWith b p then some i else best)
+
+/-- `str::trim_end` on the reversed bytes (Unicode White_Space, as in `wsLen`) -/
+def trimEndRev : Nat → Bytes → Bytes
+  | 0, l => l
+  | fuel + 1, l =>
+    match l with
+    | [] => []
+    | c :: r =>
+      if c = 32 || (9 ≤ c && c ≤ 13) then trimEndRev fuel r
+      else
+        match l with
+        | 0x85 :: 0xC2 :: r' => trimEndRev fuel r'
+        | 0xA0 :: 0xC2 :: r' => trimEndRev fuel r'
+        | 0x80 :: 0x9A :: 0xE1 :: r' => trimEndRev fuel r'
+        | 0x9F :: 0x81 :: 0xE2 :: r' => trimEndRev fuel r'
+        | 0x80 :: 0x80 :: 0xE3 :: r' => trimEndRev fuel r'
+        | x :: 0x80 :: 0xE2 :: r' =>
+          if (0x80 ≤ x && x ≤ 0x8A) || x = 0xA8 || x = 0xA9 || x = 0xAF then trimEndRev fuel r' else l
+        | _ => l
+
+/-- step 4e of `parse_with_recovery_options` -/
+def tailCatalog (f : Bytes) : Option Nat :=
+  let tail := f.drop (f.length - 102400)
+  match rfindSub (ascii "/Type/Catalog") tail 0 none with
+  | none => none
+  | some cp =>
+    let area := (tail.take cp).drop (cp - 200)
+    match rfindSub (ascii " 0 obj") area 0 none with
+    | none => none
+    | some op =>
+      let before := (area.take op).reverse
+      let trimmed := trimEndRev before.length before
+      let ds := (trimmed.takeWhile isDigit).reverse
+      if ds.isEmpty then none
+      else if digitsVal ds ≤ 4294967295 then some (digitsVal ds) else none
+
 /-- entries: (num, off, gen) ascending by number, all in use (recovery table) -/
 def findRoot (f : Bytes) (entries : List (Nat × Nat × Nat)) : Option Nat :=
   -- 4b find_catalog_by_content
@@ -242,12 +282,16 @@ def findRoot (f : Bytes) (entries : List (Nat × Nat × Nat)) : Option Nat :=
       match d with
       | some (n, _, _) => some n
       | none =>
-        -- (4e, the tail search for "/Type/Catalog", is not modelled) 4f: first non-signature object
-        let e := entries.find? fun (n, off, _) =>
-          match readObjectContent f n off with
-          | some c => !isSig c
-          | none => false
-        e.map (·.1)
+        -- 4e: the last `/Type/Catalog` of the final 100 KiB, the last ` 0 obj` within 200 bytes before it
+        match tailCatalog f with
+        | some n => some n
+        | none =>
+          -- 4f: first non-signature object
+          let e := entries.find? fun (n, off, _) =>
+            match readObjectContent f n off with
+            | some c => !isSig c
+            | none => false
+          e.map (·.1)
 
 /-- `latest.insert(h.obj_num, h)` on a table kept ascending by number (the harness prints the
     `HashMap` sorted) -/
